@@ -79,6 +79,7 @@ def run(F, R):
         R.check("C17-R1", "client-split", sep == 58, "client splits the ETag at ':'", "client splits at %r" % sep)
 
     # ---------------------------------------------------------------- R2 key lookup
+    _forced_etag_rule(R, s, W)
     R.rule("C17-R2", "PrivateKeys::find consults the latest key and every historical key, by id equality")
     fd = lib.one(R, "C17-R2", s, "PrivateKeys::find", item="find", impl_self="PrivateKeys")
     if fd:
@@ -183,6 +184,12 @@ def run(F, R):
                 for a in group:
                     miss = _missing(a, "protocol::response::App", table, skip=("updatecheck",))
                     R.check("C17-R3", "app-object:" + tag, not miss, "app object has appid/status (+cohort keys)", "app object lacks %s" % miss)
+            # .. "listing exactly the requested apps": each app object echoes the request entry's own appid value, untransformed
+            for tag, group in (("updatecheck-app", with_uc), ("event-app", without)):
+                for a in group:
+                    idt = str(((a.get("object") or {}).get("appid") or {}).get("term"))
+                    R.check("C17-R3", "appid-echoed:" + tag, "'appid'" in idt and "param2" in idt and not re.search(r"lower|upper|trim|replace|format|fmt\(|strip_|split|chars\(|bytes\(|\[\.\.|get\(\.\.", idt), idt[:80],
+                            "the app object's appid is %s, not the request entry's appid as sent: the response does not list exactly the requested apps" % idt[:100])
             R.check("C17-R3", "app-variants", len(with_uc) == 1 and len(without) == 1, "one app shape with, one without updatecheck", "app shapes: %d with, %d without updatecheck" % (len(with_uc), len(without)))
             # per response kind
             sw = None
@@ -206,6 +213,8 @@ def run(F, R):
                 R.inconclusive("C17-R3", "per-kind", "could not locate the match on OmahaResponse / the updatecheck value")
             else:
                 si, arms = terms.arm_terms(av, sw, ucl)
+                patched = [bi_ for bi_, t_ in av.calls() if (t_.get("callee") or "").endswith("IndexMut::index_mut") and t_.get("argt")
+                           and [s.types[x]["s"] for x in t_["argt"] if isinstance(x, int)][:1] == ["&mut serde_json::Value"]]
                 adt = s.adts.get("OmahaResponse")
                 R.floor("C17-R3", "OmahaResponse variants", len(adt["variants"]) if adt else 0, 5)
                 for vn, t_ in sorted(arms.items()):
@@ -217,7 +226,15 @@ def run(F, R):
                         R.check("C17-R3", "kind:" + vn, not miss, "updatecheck has every key the client requires", "%s response lacks %s: the client's parser rejects it" % (vn, miss))
                     st = ((sh.get("object") or {}).get("status") or {}).get("term")
                     urg = ((sh.get("object") or {}).get("_urgent_update") or {}).get("term")
-                    if vn == "UrgentUpdate":
+                    if patched and vn in ("UrgentUpdate", "Update", "NoUpdate", "InvalidURL"):
+                        pv_ = _patched_urgent(av, patched)
+                        if pv_ is not None and pv_[0] == "shared":
+                            R.violation("C17-R3", "urgent-flag:" + vn, "the `_urgent_update` attribute is written from state shared by all apps of the response (%s), not from this app's configured decision" % pv_[1][:80], lib.loc(av, patched[0]))
+                        elif pv_ is not None and pv_[0] == "const-under" and pv_[1] == ["UrgentUpdate"]:
+                            R.holds("C17-R3", "urgent-flag:" + vn, "`_urgent_update: true` is inserted exactly when the configured decision is UrgentUpdate")
+                        else:
+                            R.inconclusive("C17-R3", "urgent-flag:" + vn, "the updatecheck object is modified after it is built (`value[key] = ..`); the per-kind `_urgent_update` flag is not read from that spelling")
+                    elif vn == "UrgentUpdate":
                         R.check("C17-R3", "urgent-flag:" + vn, str(urg) in ("true", "const true", "True"), "_urgent_update: true", "the UrgentUpdate answer carries _urgent_update = %s: the configured decision is not the one the client reads" % urg)
                     elif vn in ("Update", "NoUpdate", "InvalidURL"):
                         R.check("C17-R3", "urgent-flag:" + vn, urg is None or str(urg) in ("false", "const false", "False"), "no urgent flag", "%s answers with _urgent_update = %s" % (vn, urg))
@@ -228,6 +245,16 @@ def run(F, R):
 
     # ---------------------------------------------------------------- R5 reconfiguration
     R.rule("C17-R5", "set_responses replaces the whole response map under the lock; every omaha request takes its snapshot of the server under the lock first")
+    # what a reconfiguration document means: an assertion key that is left out asserts nothing (None), it does not fall back
+    # to a sample value of some Default impl (the next request would be checked against a version nobody configured)
+    ds_ = schema.de_schema(W, s, "ResponseAndMetadata")
+    if ds_ is None or not ds_.get("fields"):
+        R.inconclusive("C17-R5", "config-omitted-assertion-means-none", "the deserialisation of ResponseAndMetadata could not be read")
+    else:
+        for f_ in ds_["fields"]:
+            if f_["key"] in ("version", "cohort_assertion"):
+                R.check("C17-R5", "config-omitted-assertion-means-none:" + f_["key"], not f_.get("default") and not f_.get("required"), "absent `%s` deserialises to None" % f_["key"],
+                        "an omitted `%s` is filled from a Default value instead of meaning 'no assertion': a reconfiguration that leaves it out does not take effect as written" % f_["key"])
     hs_ = [b for b in s.bodies if b["id"] == "mock_omaha_server::handle_set_responses::{closure#0}"]
     if R.floor("C17-R5", "handle_set_responses", len(hs_), 1):
         hv = BV.of(hs_[0])
@@ -266,8 +293,20 @@ def run(F, R):
         first = None
         helpers_ = {bi_: cv2_ for (bi_, t2_, cv2_) in lib.async_callees(W, cv)}
 
+        def _exec_order(v_):
+            # blocks in the order control reaches them from the entry (block numbers say nothing once a helper was inlined)
+            seen_, order_, q_ = {0}, [], [0]
+            while q_:
+                b_ = q_.pop(0)
+                order_.append(b_)
+                for n_ in v_.succ[b_]:
+                    if n_ not in seen_:
+                        seen_.add(n_)
+                        q_.append(n_)
+            return order_
+
         def _first_relevant(v_):
-            for bi in sorted(v_.reach0):
+            for bi in _exec_order(v_):
                 t = v_.blocks[bi]["t"]
                 if t["k"] == "call" and not is_logging_span(t["sp"]) and lib.norm(t.get("callee") or "").split("::")[-1] in ("lock", "method", "is_empty", "to_bytes", "get", "uri"):
                     return lib.norm(t.get("callee"))
@@ -297,11 +336,20 @@ def run(F, R):
             n += 1
             wh = census.site_what(W, bv, st)
             e = idx.get((st["desc"], wh)) or shape_idx.get((st["desc"], census.site_shape(wh)))
-            pr = _infallible_json(bv, st)
+            pr = _infallible_json(bv, st) or _json_object_index(bv, st)
             if pr:
                 R.holds("C17-R6", st["key"], "proved: " + pr)
             elif e:
                 R.holds("C17-R6", st["key"], "allowlisted: " + e["reason"])
+                if "updatedisabled'" in wh and "assertion failed" in wh:
+                    # by design this assertion is about the updatecheck of an entry: entries without one (event reports,
+                    # pings) must not meet it, or the server panics instead of answering them
+                    g_ = _under_updatecheck(bv, st["bi"])
+                    if g_ is None:
+                        R.inconclusive("C17-R6", "updatedisabled-assertion-only-for-updatechecks", "no test of `get(\"updatecheck\")` found in %s" % bv.name)
+                    else:
+                        R.check("C17-R6", "updatedisabled-assertion-only-for-updatechecks:" + ("enabled" if "!updatedisabled" in wh else "disabled"), g_, "evaluated only behind `app.get(\"updatecheck\")` being present",
+                                "the updatedisabled assertion is evaluated for request entries without an updatecheck (an event report or ping for such an app panics the server instead of being answered)", st["loc"])
             else:
                 R.violation("C17-R6", st["key"], "panic-capable site %s in %s is reachable on requests and not allowlisted" % (st["desc"], bv.name), st["loc"])
     R.floor("C17-R6", "panic-capable sites in the handlers", n, 10)
@@ -309,13 +357,180 @@ def run(F, R):
     for bid in reach:
         bv = W.bv(bid)
         for st in census.panic_sites(bv):
-            if not _infallible_json(bv, st):
+            if not (_infallible_json(bv, st) or _json_object_index(bv, st)):
                 wh = census.site_what(W, bv, st)
                 used.add((st["desc"], wh))
                 used.add(("shape", st["desc"], census.site_shape(wh)))
     stale = [k for k in idx if k not in used and ("shape", k[0], census.site_shape(k[1])) not in used]
     # an entry whose site is gone excuses nothing; it is reported, not alarmed on (removing an assertion cannot break the property)
     R.holds("C17-R6", "allowlist-not-stale", "every server allowlist entry names an existing site" if not stale else "NOTE: %d allowlist entries no longer match a site (harmless; prune tables/panic_allowlist.json): %s" % (len(stale), [k[1][:50] for k in stale]))
+
+
+def _is_some(t, env, W=None, depth=0):
+    """Three-valued `is_some()` of an Option-valued term under an assignment of the two sources of an ETag
+    (env = {"override": bool, "induced": bool}); None = not decided from this spelling."""
+    if depth > 20:
+        return None
+    t = strip(t)
+    if t[0] == "agg" and t[1] == "adt":
+        vn = (t[2] or "").rsplit("::", 1)[-1]
+        return True if vn == "Some" else (False if vn == "None" else None)
+    if t[0] == "phi":
+        vs = set(_is_some(a, env, W, depth + 1) for a in t[1])
+        return vs.pop() if len(vs) == 1 else None
+    if t[0] == "field" and lib.apath(t).endswith("etag_override"):
+        return env["override"]
+    if t[0] == "call":
+        nm = lib.norm(t[1])
+        last = nm.rsplit("::", 1)[-1]
+        if last == "make_etag":
+            return env["induced"]
+        if nm.startswith(("std::option::Option", "core::option::Option")):
+            a = t[2]
+            if last in ("as_ref", "as_mut", "as_deref", "as_deref_mut", "cloned", "copied", "map", "inspect", "take", "clone") and a:
+                return _is_some(a[0], env, W, depth + 1)
+            if last in ("or", "xor") and len(a) == 2:
+                x, y = _is_some(a[0], env, W, depth + 1), _is_some(a[1], env, W, depth + 1)
+                if last == "or":
+                    return True if (x is True or y is True) else (False if (x is False and y is False) else None)
+                return None if x is None or y is None else (x != y)
+            if last == "and" and len(a) == 2:
+                x, y = _is_some(a[0], env, W, depth + 1), _is_some(a[1], env, W, depth + 1)
+                return False if (x is False or y is False) else (True if (x is True and y is True) else None)
+            if last == "or_else" and len(a) == 2:
+                x = _is_some(a[0], env, W, depth + 1)
+                if x is True:
+                    return True
+                clo = [y for y in walk(a[1]) if y[0] == "agg" and y[1] == "closure"]
+                if clo and W is not None and clo[0][2] in W.by_id:
+                    cb = W.bv(clo[0][2])
+                    y = _is_some(lib.subst_params(cb.trace_local(0), [clo[0]]), env, W, depth + 1)
+                    return y if x is False else (True if y is True else None)
+                return None
+        if last in ("clone", "to_owned", "into", "from") and t[2]:
+            return _is_some(t[2][0], env, W, depth + 1)
+    return None
+
+
+def _forced_etag_rule(R, s, W):
+    """The configured `etag_override` is sent on every answered request, also when no ETag can be induced (no cup2key, unknown key)."""
+    hs = [b for b in s.bodies if b["id"].endswith("handle_omaha_request::{closure#0}")]
+    if not R.floor("C17-R1", "handle_omaha_request body", len(hs), 1):
+        return
+    bv = BV.of(hs[0])
+    sites = [bi for bi, t in bv.calls(reachable_only=True) if (t.get("callee") or "").endswith("Builder::header") and len(t["args"]) > 2 and "header::ETAG" in fmt_t(bv.trace_op(t["args"][1]))]
+    if not R.floor("C17-R1", "ETag header sites", len(sites), 1):
+        return
+    verdicts = []
+    for hb in sites:
+        gate = None
+        for x in sorted(bv.reach0):
+            si = guards.switch_info(bv, x)
+            if si and si.kind == "discr" and len(bv.succ[x]) > 1 and si.ty.get("d") == "std::option::Option" and ("etag_override" in fmt_t(si.term) or "make_etag" in fmt_t(si.term)):
+                for tg in bv.succ[x]:
+                    if si.edge_names(bv, tg) == ["Some"] and bv.dominated_by_edge(hb, [(x, tg)]):
+                        gate = si
+        if gate is None:
+            verdicts.append(None)
+            continue
+        forced_only = _is_some(gate.term, {"override": True, "induced": False}, W)
+        induced_only = _is_some(gate.term, {"override": False, "induced": True}, W)
+        verdicts.append((forced_only, induced_only))
+    if any(v is None or None in v for v in verdicts):
+        R.inconclusive("C17-R1", "forced-etag-sent-whenever-configured", "the ETag header is set under a test this rule cannot evaluate over {etag_override, make_etag(..)}")
+        return
+    R.check("C17-R1", "forced-etag-sent-whenever-configured", any(v[0] for v in verdicts), "with etag_override set and no induced ETag the header is still sent",
+            "a configured etag_override is dropped when no ETag can be induced from the request (no cup2key / unknown key): the forced-ETag outcome is not produced", lib.loc(bv, sites[0]))
+    R.check("C17-R1", "induced-etag-sent-without-override", any(v[1] for v in verdicts), "without an override the induced ETag is sent", "the induced ETag is not sent when no override is configured", lib.loc(bv, sites[0]))
+
+
+def _patched_urgent(av, patched):
+    """`updatecheck["_urgent_update"] = X` after the object is built: ("shared", X) when X is read from a variable captured
+    by the per-app closure, ("const-under", [variants]) when X is the constant true and the insertion is dominated by a test
+    that the configured response is one of `variants`, else None."""
+    for pb in patched:
+        t = av.blocks[pb]["t"]
+        if len(t.get("args", [])) != 2 or lib.term_const(av.crate, strip(av.trace_op(t["args"][1]))) != "_urgent_update":
+            continue
+        dl = t["dest"]["l"]
+        val = None
+        front = list(av.succ[pb])
+        for _ in range(4):
+            nxt = []
+            for nb in front:
+                for s_ in av.blocks[nb]["s"]:
+                    if s_["k"] == "assign" and s_["p"]["l"] == dl and [e["k"] for e in s_["p"].get("p", [])] == ["deref"]:
+                        val = av._trace_rv(s_["r"], None, 0)
+                nxt += av.succ[nb]
+            if val is not None:
+                break
+            front = nxt
+        if val is None:
+            return None
+        # a test of captured (shared) state that decides whether the attribute is written at all
+        for sb in sorted(av.reach0):
+            si = guards.switch_info(av, sb)
+            if si is not None and si.kind == "bool" and len(av.succ[sb]) > 1 and "param1" in fmt_t(si.term) and "OmahaResponse" not in fmt_t(si.term) \
+                    and any(av.dominated_by_edge(pb, [(sb, tg)]) for tg in av.succ[sb]):
+                return ("shared", fmt_t(si.term))
+        ft = fmt_t(val)
+        if "param1" in ft:
+            return ("shared", ft)
+        consts = [lib.term_const(av.crate, x) for x in walk(val) if x[0] == "const"]
+        is_true = (1 in consts or True in consts) and "param" not in ft
+        if not is_true:
+            return None
+        under = None
+        for sb in sorted(av.reach0):
+            si = guards.switch_info(av, sb)
+            if si is None or len(av.succ[sb]) < 2:
+                continue
+            if si.kind == "discr" and si.ty.get("d") == "OmahaResponse":
+                for tg in av.succ[sb]:
+                    if av.dominated_by_edge(pb, [(sb, tg)]):
+                        under = sorted(si.edge_names(av, tg))
+            elif si.kind == "bool" and "OmahaResponse::UrgentUpdate" in fmt_t(si.term) and ("eq(" in fmt_t(si.term) or "Eq" in fmt_t(si.term)):
+                for tg in av.succ[sb]:
+                    if si.edge_names(av, tg) == ["true"] and av.dominated_by_edge(pb, [(sb, tg)]):
+                        under = ["UrgentUpdate"]
+        return ("const-under", under) if under else None
+    return None
+
+
+def _json_object_index(bv, st):
+    """`value["key"] = ..` (IndexMut<&str> on serde_json::Value) panics unless the value is an object or null: proved when
+    every definition that reaches the receiver is an object built in place (`json!({..})`)."""
+    t = st["t"]
+    if st["desc"] != "api:IndexMut::index_mut" or len(t.get("args", [])) != 2 or not t.get("argt"):
+        return None
+    tys = [bv.crate.types[x]["s"] for x in t["argt"] if isinstance(x, int)]
+    if tys != ["&mut serde_json::Value", "&str"]:
+        return None
+    r = strip(bv.trace_op(t["args"][0]))
+    alts = r[1] if r[0] == "phi" else [r]
+    if alts and all(a[0] == "agg" and a[1] == "adt" and a[2] == "serde_json::Value::Object" for a in alts):
+        return "insertion into a JSON value that is an object on every path (%d constructions)" % len(alts)
+    return None
+
+
+def _under_updatecheck(bv, sb):
+    """True iff block sb is dominated by a 'present' edge of a test of `get(.., "updatecheck")`; None if the body has no such test."""
+    found = False
+    for b in sorted(bv.reach0):
+        si = guards.switch_info(bv, b)
+        if not si or len(bv.succ[b]) < 2:
+            continue
+        ft = fmt_t(si.term)
+        if "'updatecheck'" not in ft or "'updatedisabled'" in ft or "get(" not in ft:
+            continue
+        for tgt in bv.succ[b]:
+            nm = si.edge_names(bv, tgt)
+            present = (si.kind == "discr" and nm == ["Some"]) or (si.kind == "bool" and "is_some(" in ft and nm == ["true"])
+            if present:
+                found = True
+                if bv.dominated_by_edge(sb, [(b, tgt)]):
+                    return True
+    return False if found else None
 
 
 INFALLIBLE_TO_VALUE = ("&&str", "&str", "&std::string::String", "&&std::string::String", "&bool", "&i32", "&u32", "&i64", "&u64", "&serde_json::Value", "&&serde_json::Value",
